@@ -77,7 +77,7 @@ func render(toks []Tok) string {
 
 const bareChars = "abcxyzABCXYZ0189_-./:,@%+"
 
-var quotedExtra = []string{" ", " ", " ", "=", `"`, "'", "é", "日本", "\t", "  ", "#", "(", ")", "*", "?", "!", "&", ";", "|", "<", ">", "{", "}", "[", "]", "~"}
+var quotedExtra = []string{" ", " ", " ", "=", `"`, "'", "é", "日本", "\t", "  ", "\n", "\n", "#", "(", ")", "*", "?", "!", "&", ";", "|", "<", ">", "{", "}", "[", "]", "~"}
 
 func genBare(t *rapid.T, allowEq bool, label string) string {
 	n := rapid.IntRange(1, 8).Draw(t, label+"Len")
@@ -324,6 +324,9 @@ type ProcCase struct {
 	AsOver   bool   `json:"asOverride,omitempty"` // given at start (-p) instead of as the file's defaults
 	Payload  string `json:"payload"`              // what the producer prints to stdout (may be invalid UTF-8: hex in JSON via PayloadHex)
 	ErrNoise int    `json:"errNoise,omitempty"`   // bytes the producer also prints to stderr
+	// ProdRetry: the producer has a retry policy and fails its first attempt
+	// after having printed the payload; the variable holds the LAST attempt's stdout
+	ProdRetry bool `json:"prodRetry,omitempty"`
 }
 
 func genPayload(t *rapid.T) string {
@@ -357,10 +360,23 @@ func genProc(t *rapid.T) ProcCase {
 	if rapid.IntRange(0, 2).Draw(t, "noise") == 0 {
 		c.ErrNoise = rapid.SampledFrom([]int{1, 50, 5000}).Draw(t, "noiseN")
 	}
+	c.ProdRetry = rapid.IntRange(0, 2).Draw(t, "prodRetry") == 0 && len(c.Payload) < 60000
 	return c
 }
 
 const outVar = "VP_OUT"
+
+func prodStep(c ProcCase, emit, work, payloadFile string) map[string]any {
+	k := 0
+	if c.ProdRetry {
+		k = 1
+	}
+	m := map[string]any{"name": "prod", "command": fmt.Sprintf("%s %s %d 0 %d 0 %s", emit, filepath.Join(work, "prod.cnt"), k, c.ErrNoise, payloadFile), "output": outVar}
+	if c.ProdRetry {
+		m["retryPolicy"] = map[string]int{"limit": 1, "intervalSec": 0}
+	}
+	return m
+}
 
 type probe map[string][]string // every occurrence of a name in the child's environment
 
@@ -441,7 +457,7 @@ func checkProc(t rep.Fataler, c ProcCase) {
 		return m
 	}
 	steps := []any{
-		map[string]any{"name": "prod", "command": fmt.Sprintf("%s %s 0 0 %d 0 %s", emit, filepath.Join(work, "prod.cnt"), c.ErrNoise, payloadFile), "output": outVar},
+		prodStep(c, emit, work, payloadFile),
 		map[string]any{"name": "mid", "command": "touch " + marker, "depends": []string{"prod"}},
 		envStep("cons1", "mid"),
 		map[string]any{"name": "wait", "command": fmt.Sprintf("sh -c 'while [ ! -e %s ]; do sleep 0.02; done'", marker)},
@@ -548,7 +564,11 @@ func checkProc(t rep.Fataler, c ProcCase) {
 		if _, ok := readProbe(pr("cons1")); ok {
 			fail(nil, "retry re-executed cons1, which had finished in the recorded run")
 		}
-		if b, _ := os.ReadFile(filepath.Join(work, "prod.cnt")); strings.TrimSpace(string(b)) != "1" {
+		wantInv := "1"
+		if c.ProdRetry {
+			wantInv = "2"
+		}
+		if b, _ := os.ReadFile(filepath.Join(work, "prod.cnt")); strings.TrimSpace(string(b)) != wantInv {
 			fail(nil, "retry re-executed the producer (invocations: %s)", b)
 		}
 		labels = append(labels, "leg:retry")
@@ -588,6 +608,9 @@ func checkProc(t rep.Fataler, c ProcCase) {
 	}
 	if c.ErrNoise > 0 {
 		labels = append(labels, "producer-also-writes-stderr")
+	}
+	if c.ProdRetry {
+		labels = append(labels, "producer-retried")
 	}
 	if strings.Contains(wantOut, "\n") {
 		labels = append(labels, "payload:multiline")
